@@ -262,7 +262,10 @@ def h_external(ctx, L, with_meta, stream_len=5):
         # {master_seed} is given both by the user (keyword input) and by meta: the explicit input wins
         cmd = 'sim --a {0} --c {1} --k {kw} --m {master_seed} --b {batch_index} --seed {seed}' if with_meta else \
               'sim --a {0} --c {1} --k {kw} --m {master_seed} --seed {seed}'
-        op = tools.external_operation(cmd, process_result='f4', sep=sep)
+        # the requested output type in every documented form: dtype string, numpy.dtype instance, None (default float)
+        forms = ['f4', np.dtype('int32'), np.dtype('float32'), 'int64', None]
+        requested = forms[ctx.choice('process_result_form', len(forms))]
+        op = tools.external_operation(cmd, process_result=requested, sep=sep)
         vop = tools.vectorize(op, constants=[1])
         ms = ctx.real('user_master_seed')
         kw = dict(kw=k, master_seed=ms, random_state=FakeRS(SEED))
@@ -297,7 +300,8 @@ def h_external(ctx, L, with_meta, stream_len=5):
         ctx.claim('command_%d_subprocess_options' % i, skw.get('shell') is True and skw.get('check') is True and
                   skw.get('stdout') == FakeSubprocess.PIPE)
     ctx.claim('stdout_parsed_with_requested_sep_and_dtype',
-              len(fs_log) == L and all(t == b'1 2 3' and d == 'f4' and s == sep for t, d, s in fs_log))
+              len(fs_log) == L and all(t == b'1 2 3' and np.dtype(d) == np.dtype(requested if requested is not None else float)
+                                       and s == sep for t, d, s in fs_log))
     # seed: deterministic function of (generator word, row index): the (i+1)-th distinct value of the stream of word
     from harness.C15 import spec_value
     for i, sd in enumerate(seeds):
